@@ -70,6 +70,17 @@ impl World {
         }
         p
     }
+
+    /// the same settings through the other public route (a settings struct instead of setters)
+    pub fn parser_via_settings(&self, sch: usize, max: u16) -> FilterParser<'_> {
+        let star = STAR.with(|s| s.get());
+        let settings = wirefilter::ParserSettings {
+            max_nesting_depth: max,
+            wildcard_star_limit: if star >= 0 { star as usize } else { usize::MAX },
+            ..Default::default()
+        };
+        self.schemes[sch - 1].parser_with_settings(settings)
+    }
 }
 
 thread_local! {
@@ -111,9 +122,10 @@ pub fn observe_filter(
             }
         }
         Ok(Err(e)) => {
+            let alt_ok = catch_unwind(AssertUnwindSafe(|| w.parser_via_settings(sch, max).parse(src).is_ok())).unwrap_or(true);
             return FilterObs {
                 ok: false,
-                out: "err".into(),
+                out: if alt_ok { "settings-routes-disagree".into() } else { "err".into() },
                 ast: json!({"c": "none"}),
                 runs: vec![],
                 uses: vec![],
@@ -122,6 +134,24 @@ pub fn observe_filter(
             }
         }
         Ok(Ok(a)) => a,
+    };
+    // both ways of configuring a parser must agree
+    let alt = catch_unwind(AssertUnwindSafe(|| w.parser_via_settings(sch, max).parse(src).ok()));
+    if !matches!(&alt, Ok(Some(b)) if *b == ast) {
+        return FilterObs {
+            ok: false,
+            out: "settings-routes-disagree".into(),
+            ast: json!({"c": "none"}),
+            runs: vec![],
+            uses: vec![],
+            err: String::new(),
+            ctxobs: vec![],
+        };
+    }
+    CTXOBS.with(|c| c.borrow_mut().clear());
+    let ast = match catch_unwind(AssertUnwindSafe(|| parser.parse(src))) {
+        Ok(Ok(a)) => a,
+        _ => ast,
     };
     let j = serde_json::to_value(&ast).unwrap_or(Value::Null);
     let mut tagged = tagjson::logical(&j);
@@ -230,9 +260,16 @@ pub fn observe_value(
     };
     let ast = match parsed {
         Err(_) => return none("panic"),
-        Ok(Err(_)) => return none("err"),
+        Ok(Err(_)) => {
+            let alt_ok = catch_unwind(AssertUnwindSafe(|| w.parser_via_settings(sch, max).parse_value(src).is_ok())).unwrap_or(true);
+            return none(if alt_ok { "settings-routes-disagree" } else { "err" });
+        }
         Ok(Ok(a)) => a,
     };
+    let alt = catch_unwind(AssertUnwindSafe(|| w.parser_via_settings(sch, max).parse_value(src).ok()));
+    if !matches!(&alt, Ok(Some(b)) if *b == ast) {
+        return none("settings-routes-disagree");
+    }
     let j = serde_json::to_value(&ast).unwrap_or(Value::Null);
     let tagged = tagjson::value_ast(&j);
     let mut u = Vec::new();
